@@ -181,7 +181,7 @@ void NameSet::memPack()
    for(i = 0; i < num(); i++)
    {
       const char* t = &mem[set[i]];
-      spxSnprintf(&newmem[newlast], SPX_MAXSTRLEN, "%s", t);
+      spxSnprintf(&newmem[newlast], strlen(t) + 1, "%s", t);
       set[i] = newlast;
       newlast += int(strlen(t)) + 1;
    }
